@@ -134,6 +134,12 @@ def make_feeds(feed_specs, seed):
             a = np.where(keep, 0.0, extra.get("neg", -1e4 if dt == F32 else -1e4))
             if extra.get("soft"):
                 a = rng.standard_normal(shape)
+            if extra.get("inf_row") and a.size:  # one query position sees no key at all (what the IsNaN/Where guard exists for)
+                a = np.array(a, dtype=np.float64)
+                if a.ndim >= 2:
+                    a[..., 0, :] = -np.inf
+                else:
+                    a[...] = -np.inf
         elif kind == "int":
             a = rng.integers(-4, 5, size=shape)
         else:
@@ -227,7 +233,7 @@ def rms_norm(draw):
         nm = P["near_miss"] = nm or "f16_no_cast"
     scale_dt = dt
     if P["cast_in"] and dt == F16:
-        P["cast_out"] = draw(st.integers(0, 3)) > 0
+        P["cast_out"] = draw(st.booleans())
         if not P["cast_out"]:
             scale_dt = draw(st.sampled_from([F32, F16]))
             P["cast_scale"] = scale_dt == F16
@@ -623,6 +629,7 @@ def sdpa(draw):
         mask_kind = "BHSS"
     P.update({"dtype": dt.name, "B": B, "S": S, "H": H, "Dh": Dh, "Dv": Dv, "Skv": Skv, "near_miss": nm, "mask": mask_kind,
               "mask_first": nm == "mask_first", "const_style": g.const_style, "mask_soft": draw(st.booleans())})
+    P["mask_inf_row"] = bool(P["nan_guard"] and mask_kind != "none" and nm is None and draw(st.integers(0, 3)) == 0)
     q = g.inp("query", dt, [B, H, S, Dh], [B, H, S, Dh])
     kshape = [B, Skv, H, Dh] if P["key_form"] == "BSHd" else [B, H, Skv, Dh]
     k = g.inp("key", dt, kshape, kshape)
@@ -631,7 +638,7 @@ def sdpa(draw):
     mask = None
     if mask_kind != "none":
         ms = {"BHSS": [B, H, S, Skv], "11SS": [1, 1, S, Skv], "B1SS": [B, 1, S, Skv], "SS": [S, Skv], "111S": [1, 1, 1, Skv], "S_": [Skv]}[mask_kind]
-        mask = g.inp("mask", dt, ms, ms, kind="mask", soft=P["mask_soft"])
+        mask = g.inp("mask", dt, ms, ms, kind="mask", soft=P["mask_soft"], inf_row=P["mask_inf_row"])
     y = _sdpa_core(g, draw, q, k, v, dt, P, Dh, mask)
     g.out(y, dt, [B, H, S, Dv])
     return Host("sdpa", g, P, nm)
@@ -652,18 +659,23 @@ def mha(draw):
     cross = (not past) and proj == "none" and draw(st.integers(0, 4)) == 0
     Skv = draw(st.sampled_from([1, 5])) if cross else S
     nm = draw(st.sampled_from([None] * 8 + ["bias_rank3", "nondiv_reshape", "extra_consumer", "mask_rank3"]))
+    rope = (not cross) and nm is None and draw(st.integers(0, 3)) == 0
     P = _sdpa_params(draw, g, Dh)
-    P["key_form"] = draw(st.sampled_from(["T0132", "T0132", "BSHd"])) if not past else "T0132"
+    P["key_form"] = draw(st.sampled_from(["T0132", "T0132", "BSHd"])) if not (past or rope) else "T0132"
+    P["rope"] = rope
     if sym != "static" and P["key_form"] == "reshape3d":
         P["key_form"] = "T0132"
     mask_kind = draw(st.sampled_from(["none", "none", "BHST", "11ST", "B1ST", "ST", "111T"]))
     if nm == "mask_rank3":
         mask_kind = "1ST"
     bias = draw(st.sampled_from(["none", "qkv", "q", "kv"])) if proj != "none" or draw(st.booleans()) else "none"
+    if nm == "bias_rank3" and bias == "none":
+        bias = draw(st.sampled_from(["qkv", "q", "kv"]))
     P.update({"dtype": dt.name, "B": B, "S": S, "H": H, "Dh": Dh, "sym": sym, "proj": proj, "past": Sp, "cross": cross, "Skv": Skv,
               "near_miss": nm, "mask": mask_kind, "bias": bias, "const_style": g.const_style, "mask_soft": draw(st.booleans()),
               "reshape_form": draw(st.sampled_from(["00HD", "00H-1", "BSHD"])) if sym == "static" else draw(st.sampled_from(["00HD", "00H-1"])),
               "out_form": draw(st.sampled_from(["00-1", "00D"]))})
+    P["mask_inf_row"] = bool(P["nan_guard"] and mask_kind != "none" and nm is None and draw(st.integers(0, 3)) == 0)
     rs = np.random.default_rng(draw(st.integers(0, 1000)))
     T = Sp + Skv
     Ts = T if isinstance(Ss, int) else "T"
@@ -711,6 +723,14 @@ def mha(draw):
     if P["key_form"] != "BSHd":
         k4 = g.op("Transpose", k4, perm=[0, 2, 1, 3])
     v4 = g.op("Transpose", g.op("Reshape", vv, shape4(Skv)), perm=[0, 2, 1, 3])
+    if rope:  # rotate-half rotary embedding of q and k from shared position ids (per batch: [B,S])
+        RP = {"inv_freq_seed": draw(st.integers(0, 50)), "pos_rank": 2, "pos_const": False, "pos_start": 0, "max_pos": max(16, S + Sp),
+              "pos_mode": "arange", "inv_freq_form": draw(st.sampled_from(["const3d", "unsqueeze"])), "inv_expand": False, "pos_batch1": False}
+        P["rope_inv_freq"] = RP["inv_freq_form"]
+        cos4, sin4 = _cos_sin_from_positions(g, draw, RP, B, S, Bs, Ss, Dh // 2, dt)
+        end2 = draw(st.sampled_from([Dh, INT64_MAX]))
+        q4 = _rotate_half_rope(g, q4, cos4, sin4, Dh // 2, end2, RP)
+        k4 = _rotate_half_rope(g, k4, cos4, sin4, Dh // 2, end2, RP)
     if past:
         Sps = Sp if isinstance(Ss, int) else "P"
         pk = g.inp("past_key", dt, [Bs, H, Sps, Dh], [B, H, Sp, Dh])
@@ -718,10 +738,11 @@ def mha(draw):
         k4 = g.op("Concat", pk, k4, axis=-2)
         v4 = g.op("Concat", pv, v4, axis=-2)
     mask = None
+    Hm = H // 2 if (nm == "nondiv_reshape" and H > 1) else H
     if mask_kind != "none":
-        ms, mss = {"BHST": ([B, H, S, T], [Bs, H, Ss, Ts]), "11ST": ([1, 1, S, T], [1, 1, Ss, Ts]), "B1ST": ([B, 1, S, T], [Bs, 1, Ss, Ts]),
+        ms, mss = {"BHST": ([B, Hm, S, T], [Bs, Hm, Ss, Ts]), "11ST": ([1, 1, S, T], [1, 1, Ss, Ts]), "B1ST": ([B, 1, S, T], [Bs, 1, Ss, Ts]),
                    "ST": ([S, T], [Ss, Ts]), "111T": ([1, 1, 1, T], [1, 1, 1, Ts]), "1ST": ([1, S, T], [1, Ss, Ts])}[mask_kind]
-        mask = g.inp("mask", dt, mss, ms, kind="mask", soft=P["mask_soft"])
+        mask = g.inp("mask", dt, mss, ms, kind="mask", soft=P["mask_soft"], inf_row=P["mask_inf_row"])
     PP = dict(P)
     PP["Skv"] = T
     att = _sdpa_core(g, draw, q4, k4, v4, dt, PP, Dh, mask)
